@@ -1,6 +1,7 @@
 import TFV.Properties.Select
 import TFV.Properties.Src.Bsearch
 import TFV.Properties.Src.Tournament
+import TFV.Properties.Src.Sampling
 #print axioms TFV.Select.C11_bsearch_eq_firstGe
 #print axioms TFV.Select.C11_bsearch_interval
 #print axioms TFV.Select.C11_weight_positive
@@ -22,3 +23,8 @@ import TFV.Properties.Src.Tournament
 #print axioms TFV.SrcTie.C11_src_argsort_k
 #print axioms TFV.SrcTie.C11_src_binary_search_first_ge
 #print axioms TFV.SrcTie.C11_src_tournament_selection
+#print axioms TFV.SrcTie.C11_src_sattolo_shuffle
+#print axioms TFV.SrcTie.C11_src_random_sample_norepl
+#print axioms TFV.SrcTie.C11_src_random_sample_repl
+#print axioms TFV.SrcTie.C11_src_random_weighted_sample_norepl
+#print axioms TFV.SrcTie.C11_src_random_weighted_sample_repl
